@@ -111,6 +111,22 @@ UNITS += [
     // (implicit obligations: the destination index is finalized after all blobs, the snapshots are saved last)
 """),
 ]
+
+RWF = "crates/core/src/commands/rewrite.rs"
+UNITS += [
+    Unit(name="rewrite_save_then_forget", file=RWF, kind="block", within="fn process_snapshots<S: Open>(",
+         anchor="match (&opts.tags_rewritten, opts.forget) {", block_end="    }\n\n    Ok(snapshots)",
+         block_sig="fn rewrite_save_then_forget(repo: &VRepoRw, snapshots: &Vec<SnapshotFile>, opts: &RewriteOptions, w: &mut RewriteWorld) -> (r: RusticResult<()>)",
+         block_tail="    Ok(())",
+         functions=["commands::rewrite::process_snapshots (save the rewritten snapshots, then forget the originals)"],
+         rewrites=[
+             Rw(r"match \(&opts\.tags_rewritten, opts\.forget\) \{.*?\(None, true\) => \{\}\n        \}\n", "", regex=True, why="ELIDED: tag bookkeeping of the rewritten snapshots (closures over strings); no storage operation in it"),
+             Rw("repo.save_snapshots(snapshots.clone())?;", "repo.vsave_snapshots(vclone_snapshots(snapshots), w)?;", why="Repository::save_snapshots -> stub: ensures 'rewritten snapshots saved'"),
+             Rw("let old_snap_ids: Vec<_> = snapshots.iter().map(|sn| sn.id).collect();", "let old_snap_ids = vsnapshot_ids(snapshots);", why="iterator map/collect of the ids -> stub"),
+             Rw("repo.delete_snapshots(&old_snap_ids)?;", "repo.vdelete_snapshots(&old_snap_ids, w)?;", why="Repository::delete_snapshots -> effectful stub: PRECONDITION 'replacements saved'"),
+         ],
+         contract="\n    // (implicit obligation: the original snapshots are forgotten only after the rewritten ones were saved)\n"),
+]
 KANI = []
 META = {"not_covered": [
     "the statement's quantifier (every prefix of every command's storage operations, any single failing operation): only the ordering of the straight-line parts listed under functions is decided",
